@@ -161,7 +161,9 @@ def reversal_members():
     out = {}
     # disconnected double null with three inter-separatrix cells (the only radial segment with
     # both end gradients prescribed), orthogonal
-    o3 = dict(nx_inter_sep=3)
+    # multiplier chosen so that (separatrix gradient x cells) / (distance between the separatrices)
+    # is about 1.5: the branch of the spacing function that *increases* the average spacing
+    o3 = dict(nx_inter_sep=3, psi_spacing_separatrix_multiplier=0.25)
     out["ldn-orth-nx_inter_sep=3"] = dict(
         base=mk("ldn", True, opt=o3),
         sigma=mk("ldn", True, opt=o3, sigma=-1.0, tags=["sigma"]),
